@@ -1189,6 +1189,18 @@ def t4_ntop(prog, rep):
                           (need[0] if need else show(fam), need[1] if need else "?", show(size), obj), function=f.name, construct="ntop-size")
     if n < 2:
         rep.defer_broken("T4-ntop: fewer than 2 inet_ntop calls found in sock_util.c")
+    # printing is the inverse of resolving: a printer converts with its own family, from the whole address member of the copy it
+    # made, on every path -- the resolver takes what stands between the brackets for IPv6 exactly when it contains a ':'
+    u = prog.unit("util/sock_util.c")
+    for fn, fam, member in (("prettyprint_ipv4", 2, "sin_addr"), ("prettyprint_ipv6", 10, "sin6_addr")):
+        f = u.func(fn)
+        if f is None:
+            raise cdb.AnalysisBroken("anchor missing: %s" % fn)
+        cs = list(f.calls("inet_ntop"))
+        bad = [c for c in cs if norm(c.arg(0)) != ("c", fam) or not (norm(c.arg(1))[0] == "&" and norm(c.arg(1))[1][0] == "." and norm(c.arg(1))[1][2] == member)]
+        rep.check(bool(cs) and not bad, "T4-ntop", "%s converts the address with its own family, from the %s member" % (fn, member), (bad[0].where if bad else f.loc),
+                  ("`%s`: the text produced is another family's form of (part of) the address; resolving it gives an address of that family, not the one printed" % bad[0].text[:60]) if bad else "no inet_ntop call",
+                  function=fn, construct="ntop-family")
 
 
 def t4(prog, rep):
